@@ -1,7 +1,710 @@
-//! C02 — not built yet.
-use lv_common::Ctx;
+//! C02 — Header chain verification accepts exactly linked successors.
+//!
+//! Code under test: `ExtendedHeader::{verify, verify_adjacent, verify_range, verify_adjacent_range}` (and through
+//! them `verify_commit_light_trusting` with DEFAULT_TRUST_LEVEL). `VerifiedExtendedHeaders::try_from` lives in
+//! lumina-node and is left to lv-node.
+//! Oracle: `lv_gen::hdrref::ref_conds` / `ref_range_ok` — every clause of the property sentence decided
+//! independently (i128 nanosecond time arithmetic, u128 trusting tally over ed25519-consensus checks).
+//! The local clock is pinned per evaluation through the additive `verif_clock` hook, which gives the exact
+//! 10-second boundary; a few evaluations per case also run on the real clock with chains years away from it.
+use celestia_types::verif_clock;
+use celestia_types::{ExtendedHeader, ValidatorSet};
+use lv_common::prelude::*;
+use lv_gen::chain::{BlockSpec, Chain, ChainSpec, DahKind, TimeBase, VoteKind, build_chain, build_fork, hash_bytes, key_for, seal, sign_slot, val_info};
+use lv_gen::hdrref::{RefConds, nanos_of, ref_conds, ref_range_ok, sign_nil_slots_properly, trusting_well_formed};
+use tendermint::block::CommitSig;
+use tendermint::{Signature, Time};
 
-pub fn run(_ctx: &mut Ctx) {
-    eprintln!("C02: check not built yet");
-    std::process::exit(2);
+#[derive(Clone, Debug, Serialize, Deserialize)]
+pub enum Rot {
+    /// keep exactly the members of the engineered group K (new powers), replace everybody else by new members
+    KeepK { powers: Vec<u64>, extra: Vec<u64> },
+    /// keep the members selected by the mask (new powers), add new members
+    Mask { mask: u8, powers: Vec<u64>, extra: Vec<u64> },
+    /// a completely new set
+    Disjoint { extra: Vec<u64> },
+}
+
+#[derive(Clone, Debug, Serialize, Deserialize)]
+pub struct BlockPlan {
+    pub dt_ms: u32,
+    pub votes: Vec<VoteKind>,
+    pub rot: Option<Rot>,
+}
+
+#[derive(Clone, Debug, Serialize, Deserialize)]
+pub struct ForkPlan {
+    pub from: u16,
+    pub len: u8,
+    pub salt: u8,
+    pub foreign: bool,
+}
+
+#[derive(Clone, Debug, Serialize, Deserialize)]
+pub enum Perturb {
+    /// header j re-issued (honestly sealed) under another chain id
+    ChainId { j: u16 },
+    /// header j re-issued with time = time(header rel) + delta_ns
+    Retime { j: u16, rel: u16, delta_ns: i64 },
+    /// header j re-issued naming another parent hash
+    Parent { j: u16, bit: u16 },
+    /// an attacker's header at j's height: its own set is [A (dominant), X1..Xm]; entry 0 is A's valid vote (so
+    /// the light rule is satisfied and the header validates), the remaining entries are Commit-flagged, name the
+    /// validators of header `victim` and carry signatures that are not valid for this block (garbage, or the
+    /// victims' genuine signatures for their own block)
+    ForgedTrust { j: u16, victim: u16, replay: bool },
+}
+
+#[derive(Clone, Debug, Serialize, Deserialize)]
+pub enum RangeOp {
+    Honest,
+    Remove(u16),
+    Dup(u16),
+    Swap(u16, u16),
+    Reverse,
+    /// element k replaced by the s-th special (fork / perturbed) header
+    Replace(u16, u16),
+    /// s-th special header inserted at k
+    Insert(u16, u16),
+    Empty,
+}
+
+#[derive(Clone, Debug, Serialize, Deserialize)]
+pub struct RangePlan {
+    pub trusted: u16,
+    pub start: u16,
+    pub len: u16,
+    pub op: RangeOp,
+}
+
+#[derive(Clone, Debug, Serialize, Deserialize)]
+pub struct Case {
+    pub seed: u64,
+    pub chain_id: String,
+    pub start_height: u64,
+    pub app_version: u8,
+    /// chain placed ~80 years in the future (every verify on the real clock must then fail the drift check)
+    pub future: bool,
+    /// powers of group K
+    pub keep: Vec<u64>,
+    /// group R: |rest|+1 members sharing 2*sum(K)+eps
+    pub rest: Vec<u16>,
+    pub eps: i8,
+    pub blocks: Vec<BlockPlan>,
+    pub forks: Vec<ForkPlan>,
+    pub perturbs: Vec<Perturb>,
+    pub ranges: Vec<RangePlan>,
+}
+
+fn small_power() -> impl Strategy<Value = u64> {
+    prop_oneof![4 => 1u64..=3, 2 => 1u64..=30, 1 => 1u64..=(1u64 << 40)]
+}
+
+fn rot_strategy() -> impl Strategy<Value = Rot> {
+    let powers = || prop::collection::vec(small_power(), 8);
+    prop_oneof![
+        4 => (powers(), prop::collection::vec(small_power(), 1..=3)).prop_map(|(powers, extra)| Rot::KeepK { powers, extra }),
+        3 => (any::<u8>(), powers(), prop::collection::vec(small_power(), 0..=3)).prop_map(|(mask, powers, extra)| Rot::Mask { mask, powers, extra }),
+        1 => prop::collection::vec(small_power(), 1..=3).prop_map(|extra| Rot::Disjoint { extra }),
+    ]
+}
+
+fn vote_vec() -> impl Strategy<Value = Vec<VoteKind>> {
+    prop_oneof![
+        3 => Just(vec![]),
+        2 => prop::collection::vec(prop_oneof![6 => Just(VoteKind::Commit), 1 => Just(VoteKind::Nil), 1 => Just(VoteKind::Absent)], 0..=8),
+    ]
+}
+
+fn delta_strategy() -> impl Strategy<Value = i64> {
+    prop_oneof![
+        3 => Just(0i64),
+        2 => Just(1i64),
+        2 => Just(-1i64),
+        1 => Just(1_000_000_000i64),
+        1 => Just(-1_000_000_000i64),
+        1 => -3_600_000_000_000i64..3_600_000_000_000i64,
+    ]
+}
+
+fn case_strategy(max_len: usize) -> impl Strategy<Value = Case> {
+    let blocks = prop::collection::vec(
+        (1u32..600_000, vote_vec(), prop_oneof![3 => Just(None), 1 => rot_strategy().prop_map(Some)]).prop_map(|(dt_ms, votes, rot)| BlockPlan { dt_ms, votes, rot }),
+        3..=max_len,
+    );
+    let forks = prop::collection::vec(
+        (any::<u16>(), 1u8..=3, 1u8..=200, any::<bool>()).prop_map(|(from, len, salt, foreign)| ForkPlan { from, len, salt, foreign }),
+        1..=3,
+    );
+    let perturbs = prop::collection::vec(
+        prop_oneof![
+            2 => any::<u16>().prop_map(|j| Perturb::ChainId { j }),
+            5 => (any::<u16>(), any::<u16>(), delta_strategy()).prop_map(|(j, rel, delta_ns)| Perturb::Retime { j, rel, delta_ns }),
+            // same header re-timed relative to itself / its parent: the sharp cases for the height and time clauses
+            2 => (any::<u16>(), delta_strategy()).prop_map(|(j, delta_ns)| Perturb::Retime { j, rel: j, delta_ns }),
+            2 => (any::<u16>(), any::<u16>()).prop_map(|(j, bit)| Perturb::Parent { j, bit }),
+            2 => (any::<u16>(), any::<u16>(), any::<bool>()).prop_map(|(j, victim, replay)| Perturb::ForgedTrust { j, victim, replay }),
+        ],
+        4..=9,
+    );
+    let range_op = prop_oneof![
+        3 => Just(RangeOp::Honest),
+        2 => any::<u16>().prop_map(RangeOp::Remove),
+        1 => any::<u16>().prop_map(RangeOp::Dup),
+        1 => (any::<u16>(), any::<u16>()).prop_map(|(a, b)| RangeOp::Swap(a, b)),
+        1 => Just(RangeOp::Reverse),
+        2 => (any::<u16>(), any::<u16>()).prop_map(|(a, b)| RangeOp::Replace(a, b)),
+        1 => (any::<u16>(), any::<u16>()).prop_map(|(a, b)| RangeOp::Insert(a, b)),
+        1 => Just(RangeOp::Empty),
+    ];
+    let ranges = prop::collection::vec(
+        (any::<u16>(), any::<u16>(), any::<u16>(), range_op).prop_map(|(trusted, start, len, op)| RangePlan { trusted, start, len, op }),
+        8..=16,
+    );
+    (
+        (
+            any::<u64>(),
+            lv_gen::chain::chain_id_strategy(),
+            prop_oneof![3 => Just(1u64), 2 => 2u64..1000, 1 => (1u64 << 32)..(1u64 << 40)],
+            1u8..=7,
+            prop::bool::weighted(0.08),
+        ),
+        prop::collection::vec(small_power(), 1..=3),
+        prop::collection::vec(any::<u16>(), 0..=2),
+        prop_oneof![3 => -1i8..=1, 1 => -3i8..=3],
+        blocks,
+        forks,
+        perturbs,
+        ranges,
+    )
+        .prop_map(|((seed, chain_id, start_height, app_version, future), keep, rest, eps, blocks, forks, perturbs, ranges)| Case {
+            seed,
+            chain_id,
+            start_height,
+            app_version,
+            future,
+            keep,
+            rest,
+            eps,
+            blocks,
+            forks,
+            perturbs,
+            ranges,
+        })
+}
+
+fn chain_spec(case: &Case) -> ChainSpec {
+    // set0 = K ∪ R with ΣR = 2ΣK + eps, so the power of K sits on the 1/3 boundary of the first set
+    let sk: u64 = case.keep.iter().sum();
+    let rtotal = (2 * sk as i128 + case.eps as i128).max(1) as u64;
+    let nr = (case.rest.len() as u64 + 1).min(rtotal);
+    let mut r = vec![1u64; nr as usize];
+    let mut rem = rtotal - nr;
+    for (j, sel) in case.rest.iter().enumerate().take(nr as usize - 1) {
+        let take = pick(*sel, rem as usize + 1) as u64;
+        r[j] += take;
+        rem -= take;
+    }
+    *r.last_mut().unwrap() += rem;
+    let nk = case.keep.len() as u8;
+    let set0: Vec<(u8, u64)> = case.keep.iter().chain(r.iter()).enumerate().map(|(i, p)| (i as u8, *p)).collect();
+    let mut cur = set0.clone();
+    let mut next_idx = set0.len() as u8;
+    let mut blocks = Vec::new();
+    for b in &case.blocks {
+        let mut fresh = |extra: &Vec<u64>, out: &mut Vec<(u8, u64)>| {
+            for p in extra {
+                out.push((next_idx, *p));
+                next_idx = next_idx.wrapping_add(1);
+            }
+        };
+        let next_set = b.rot.as_ref().and_then(|rot| {
+            let mut out: Vec<(u8, u64)> = Vec::new();
+            match rot {
+                Rot::KeepK { powers, extra } => {
+                    for (j, (idx, _)) in cur.iter().enumerate() {
+                        if *idx < nk {
+                            out.push((*idx, powers[j % powers.len()]));
+                        }
+                    }
+                    fresh(extra, &mut out);
+                }
+                Rot::Mask { mask, powers, extra } => {
+                    for (j, (idx, _)) in cur.iter().enumerate() {
+                        if mask >> (j % 8) & 1 == 1 {
+                            out.push((*idx, powers[j % powers.len()]));
+                        }
+                    }
+                    fresh(extra, &mut out);
+                }
+                Rot::Disjoint { extra } => fresh(extra, &mut out),
+            }
+            if out.is_empty() { None } else { Some(out) }
+        });
+        if let Some(ns) = &next_set {
+            cur = ns.clone();
+        }
+        blocks.push(BlockSpec {
+            dt_ms: b.dt_ms,
+            votes: b.votes.clone(),
+            dah: DahKind::Empty,
+            next_set,
+        });
+    }
+    ChainSpec {
+        seed: case.seed,
+        chain_id: case.chain_id.clone(),
+        start_height: case.start_height,
+        app_version: case.app_version,
+        time_base: TimeBase::Fixed(if case.future { 4_200_000_000 } else { 1_600_000_000 } + case.seed % 100_000_000),
+        set0,
+        blocks,
+    }
+}
+
+#[derive(Clone, Copy, PartialEq, Eq, Debug)]
+enum Kind {
+    Honest,
+    Fork,
+    Perturbed,
+    Forged,
+}
+
+struct Item {
+    h: ExtendedHeader,
+    kind: Kind,
+    what: String,
+}
+
+/// Pins the clock of `ExtendedHeader::verify` on this thread; cleared on drop.
+struct ClockGuard;
+impl ClockGuard {
+    fn set(&self, now: Option<Time>) {
+        verif_clock::set(now);
+    }
+}
+impl Drop for ClockGuard {
+    fn drop(&mut self) {
+        verif_clock::set(None);
+    }
+}
+
+fn from_nanos(n: i128) -> Time {
+    Time::from_unix_timestamp(n.div_euclid(1_000_000_000) as i64, n.rem_euclid(1_000_000_000) as u32).unwrap()
+}
+
+fn build_pool(case: &Case, chain: &Chain) -> Vec<Item> {
+    let len = chain.headers.len();
+    let mut pool: Vec<Item> = Vec::new();
+    for (i, h) in chain.headers.iter().enumerate() {
+        let mut h = h.clone();
+        sign_nil_slots_properly(&mut h, &chain.keys[i]);
+        pool.push(Item {
+            h,
+            kind: Kind::Honest,
+            what: format!("H{i}"),
+        });
+    }
+    for f in &case.forks {
+        let from = 1 + pick(f.from, len - 1);
+        for (k, h) in build_fork(chain, from, f.len as usize, f.salt as u64, f.foreign).into_iter().enumerate() {
+            pool.push(Item {
+                h,
+                kind: Kind::Fork,
+                what: format!("fork({}keys)@{}+{k}", if f.foreign { "foreign-" } else { "same-" }, from),
+            });
+        }
+    }
+    for p in &case.perturbs {
+        let (j, what) = match p {
+            Perturb::ChainId { j } | Perturb::Retime { j, .. } | Perturb::Parent { j, .. } | Perturb::ForgedTrust { j, .. } => {
+                (pick(*j, len), format!("{p:?}"))
+            }
+        };
+        let mut h = pool[j].h.clone();
+        match p {
+            Perturb::ChainId { .. } => {
+                h.header.chain_id = format!("{}-b", case.chain_id).try_into().unwrap();
+            }
+            Perturb::Retime { rel, delta_ns, .. } => {
+                let r = pick(*rel, len);
+                h.header.time = from_nanos(nanos_of(chain.headers[r].header.time) + *delta_ns as i128);
+            }
+            Perturb::ForgedTrust { .. } => {}
+            Perturb::Parent { bit, .. } => {
+                if let Some(b) = h.header.last_block_id.as_mut() {
+                    let mut x: [u8; 32] = hash_bytes(&b.hash).try_into().unwrap();
+                    x[(*bit as usize / 8) % 32] ^= 1 << (bit % 8);
+                    b.hash = tendermint::Hash::Sha256(x);
+                } else {
+                    continue;
+                }
+            }
+        }
+        if let Perturb::ForgedTrust { victim, replay, .. } = p {
+            let vi = pick(*victim, len);
+            let vh = &chain.headers[vi];
+            let aseed = case.seed ^ 0xa77ac;
+            let akey = key_for(aseed, 220);
+            let mut infos = vec![val_info(&akey, 1_000_000)];
+            for m in 0..vh.validator_set.validators().len() {
+                infos.push(val_info(&key_for(aseed, 221 + m as u8), 1));
+            }
+            h.validator_set = ValidatorSet::new(infos.clone(), Some(infos[0].clone()));
+            let t = h.header.time;
+            let mut sigs = vec![CommitSig::BlockIdFlagCommit {
+                validator_address: infos[0].address,
+                timestamp: t,
+                signature: None,
+            }];
+            for (m, v) in vh.validator_set.validators().iter().enumerate() {
+                let garbage = Signature::new(lv_common::Prng::new(aseed ^ m as u64).array::<64>()).unwrap().unwrap();
+                let (timestamp, signature) = match (&vh.commit.signatures[m], *replay) {
+                    (CommitSig::BlockIdFlagCommit { timestamp, signature: Some(s), .. }, true) => (*timestamp, s.clone()),
+                    _ => (t, garbage),
+                };
+                sigs.push(CommitSig::BlockIdFlagCommit {
+                    validator_address: v.address,
+                    timestamp,
+                    signature: Some(signature),
+                });
+            }
+            h.commit.signatures = sigs;
+            h.header.validators_hash = h.validator_set.hash();
+            h.header.next_validators_hash = h.validator_set.hash();
+            h.header.proposer_address = infos[0].address;
+            h.commit.block_id.hash = h.header.hash();
+            sign_slot(&mut h, 0, &akey);
+            // constructible only while the light rule stops at the quorum point (open finding of C01)
+            if h.validate().is_err() {
+                continue;
+            }
+            pool.push(Item {
+                h,
+                kind: Kind::Forged,
+                what: format!("{what}->forged@H{j}"),
+            });
+            continue;
+        }
+        seal(&mut h, &chain.keys[j]);
+        sign_nil_slots_properly(&mut h, &chain.keys[j]);
+        pool.push(Item {
+            h,
+            kind: Kind::Perturbed,
+            what: format!("{what}->H{j}'"),
+        });
+    }
+    pool
+}
+
+fn first_failing(rc: &RefConds) -> &'static str {
+    rc.failing().first().copied().unwrap_or("none")
+}
+
+fn judge_pair(obs: &mut Obs, clock: &ClockGuard, t: &Item, u: &Item, now: Option<Time>, tag: &str) -> Result<bool, Failure> {
+    clock.set(now);
+    let real_now = Time::now();
+    let res = t.h.verify(&u.h);
+    let res_adj = t.h.verify_adjacent(&u.h);
+    clock.set(None);
+    let rc = ref_conds(&t.h, &u.h, now.unwrap_or(real_now));
+    let desc = || {
+        format!(
+            "trusted {} (height {}, time {}) vs untrusted {} (height {}, time {}), now={:?} [{tag}]; reference conditions {rc:?}",
+            t.what,
+            t.h.height(),
+            t.h.time(),
+            u.what,
+            u.h.height(),
+            u.h.time(),
+            now
+        )
+    };
+    if res.is_ok() && !rc.ok() {
+        obs.fail(&format!("C02:verify-accepted-despite-{}", first_failing(&rc)), format!("verify Ok but {:?} fail(s): {}", rc.failing(), desc()))?;
+    }
+    if res.is_err() && rc.ok() {
+        let wf = trusting_well_formed(&t.h.validator_set, t.h.chain_id().as_str(), &u.h.commit);
+        if wf {
+            obs.fail(
+                "C02:verify-rejected-linked-successor",
+                format!("verify Err({}) although every clause of the property holds: {}", res.as_ref().unwrap_err(), desc()),
+            )?;
+        }
+    }
+    let want_adj = rc.ok() && rc.adjacent;
+    if res_adj.is_ok() != want_adj {
+        if res_adj.is_ok() {
+            obs.fail(
+                &format!("C02:verify-adjacent-accepted-despite-{}", if rc.adjacent { first_failing(&rc) } else { "non-adjacent" }),
+                format!("verify_adjacent Ok: {}", desc()),
+            )?;
+        } else {
+            obs.fail("C02:verify-adjacent-rejected-linked-successor", format!("verify_adjacent Err({}): {}", res_adj.as_ref().unwrap_err(), desc()))?;
+        }
+    }
+    Ok(res.is_ok())
+}
+
+fn run_case(case: &Case, obs: &mut Obs) -> Result<(), Failure> {
+    let spec = chain_spec(case);
+    let chain = build_chain(&spec);
+    let pool = build_pool(case, &chain);
+    for it in &pool {
+        it.h.validate().map_err(|e| Failure::new("gen", format!("pool header {} does not validate: {e}", it.what)))?;
+    }
+    if case.future {
+        obs.label("future-chain");
+    }
+    let clock = ClockGuard;
+    let max_t = pool.iter().map(|i| nanos_of(i.h.time())).max().unwrap();
+    let far = from_nanos(max_t + 3_600_000_000_000);
+    let mut real_clock_budget = 12;
+    for t in &pool {
+        for u in &pool {
+            let rc = ref_conds(&t.h, &u.h, far);
+            let special = t.kind != Kind::Honest || u.kind != Kind::Honest;
+            let rotated = hash_bytes(&t.h.header.validators_hash) != hash_bytes(&u.h.header.validators_hash);
+            let nontrivial = special || (!rc.adjacent && rotated);
+            let d = digest_bytes(&[hash_bytes(&t.h.hash()), hash_bytes(&u.h.hash())].concat());
+            obs.eval(nontrivial.then_some(d));
+            let ok = judge_pair(obs, &clock, t, u, Some(far), "clock far ahead")?;
+            // classification
+            let failing = rc.failing();
+            if ok {
+                obs.label(if rc.adjacent { "accept-adjacent" } else { "accept-non-adjacent" });
+            } else if failing.len() == 1 {
+                obs.label(&format!("reject-only-{}", failing[0]));
+            } else {
+                obs.label("reject-several");
+            }
+            if t.kind == Kind::Fork || u.kind == Kind::Fork {
+                obs.label("fork-pair");
+            }
+            if u.kind == Kind::Forged && !rc.adjacent && rc.height_gt && rc.chain_eq && rc.time_later {
+                // would be decided by the trusting tally alone
+                obs.label("forged-trust-entries");
+            }
+            if rc.adjacent && rotated && rc.ok() {
+                obs.label("rotated-adjacent-pair");
+            }
+            let others_ok = rc.height_gt && rc.chain_eq && rc.time_later;
+            if !rc.adjacent && others_ok {
+                let (p, tt) = (rc.trust_power, rc.trust_total);
+                if rotated {
+                    obs.label("non-adjacent-rotated");
+                }
+                if 3 * p == tt {
+                    obs.label("trust-exact-third");
+                }
+                if p == tt / 3 {
+                    obs.label("trust-boundary-reject");
+                }
+                if p == tt / 3 + 1 {
+                    obs.label("trust-boundary-accept");
+                }
+                if p == 0 {
+                    obs.label("trust-zero");
+                }
+                if p == tt {
+                    obs.label("trust-full");
+                }
+            }
+            // exact clock boundary for every pair that is otherwise a linked successor
+            if rc.ok() {
+                let ut = nanos_of(u.h.time());
+                for (delta, label) in [
+                    (-10_000_000_000i128, "clock-exact-boundary"),
+                    (-10_000_000_000 + 1, "clock-1ns-inside"),
+                    (-10_000_000_000 - 1, "clock-1ns-outside"),
+                    (-3_600_000_000_000, "clock-header-1h-ahead"),
+                    (-9_000_000_000, "clock-header-9s-ahead"),
+                    (0, "clock-header-now"),
+                ] {
+                    let now = from_nanos(ut + delta);
+                    obs.eval(Some(d ^ (delta as u64).wrapping_mul(0x9E3779B97F4A7C15)));
+                    let ok = judge_pair(obs, &clock, t, u, Some(now), label)?;
+                    obs.label(label);
+                    if !ok {
+                        obs.label("reject-only-clock");
+                    }
+                }
+                if real_clock_budget > 0 {
+                    real_clock_budget -= 1;
+                    obs.eval(Some(d ^ 0x7ea1));
+                    let ok = judge_pair(obs, &clock, t, u, None, "real clock")?;
+                    obs.label(if ok { "real-clock-accept" } else { "real-clock-reject" });
+                }
+            }
+        }
+    }
+
+    // ---------------------------------------------------------------- ranges
+    let honest: Vec<&Item> = pool.iter().filter(|i| i.kind == Kind::Honest).collect();
+    let specials: Vec<&Item> = pool.iter().filter(|i| i.kind != Kind::Honest).collect();
+    let len = honest.len();
+    clock.set(Some(far));
+    for (ri, rp) in case.ranges.iter().enumerate() {
+        let ti = pick(rp.trusted, len);
+        // mostly ranges that start right after (or shortly after) the trusted header
+        let start = match rp.start % 4 {
+            0 | 1 => ti + 1,
+            2 => ti + 1 + pick(rp.start, 3),
+            _ => pick(rp.start, len),
+        }
+        .min(len);
+        let n = pick(rp.len, len - start + 1);
+        let mut xs: Vec<ExtendedHeader> = honest[start..start + n].iter().map(|i| i.h.clone()).collect();
+        let label = match &rp.op {
+            RangeOp::Honest => "range-honest-slice",
+            RangeOp::Remove(k) => {
+                if !xs.is_empty() {
+                    xs.remove(pick(*k, xs.len()));
+                }
+                "range-removed-one"
+            }
+            RangeOp::Dup(k) => {
+                if !xs.is_empty() {
+                    let k = pick(*k, xs.len());
+                    xs.insert(k, xs[k].clone());
+                }
+                "range-duplicated-one"
+            }
+            RangeOp::Swap(a, b) => {
+                if xs.len() >= 2 {
+                    let (a, b) = (pick(*a, xs.len()), pick(*b, xs.len()));
+                    xs.swap(a, b);
+                }
+                "range-swapped-two"
+            }
+            RangeOp::Reverse => {
+                xs.reverse();
+                "range-reversed"
+            }
+            RangeOp::Replace(k, s) => {
+                if !xs.is_empty() && !specials.is_empty() {
+                    let k = pick(*k, xs.len());
+                    // prefer a special header of the same height (a same-height fork / perturbed twin)
+                    let hgt = xs[k].height();
+                    let same: Vec<&&Item> = specials.iter().filter(|i| i.h.height() == hgt).collect();
+                    xs[k] = if same.is_empty() { specials[pick(*s, specials.len())].h.clone() } else { same[pick(*s, same.len())].h.clone() };
+                }
+                "range-perturbed-element"
+            }
+            RangeOp::Insert(k, s) => {
+                if !specials.is_empty() {
+                    let k = pick(*k, xs.len() + 1);
+                    xs.insert(k, specials[pick(*s, specials.len())].h.clone());
+                }
+                "range-inserted-element"
+            }
+            RangeOp::Empty => {
+                xs.clear();
+                "range-empty"
+            }
+        };
+        let trusted = &honest[ti].h;
+        let want = ref_range_ok(trusted, &xs, far, false);
+        let want_adj = ref_range_ok(trusted, &xs, far, true);
+        let got = trusted.verify_range(&xs);
+        let got_adj = trusted.verify_adjacent_range(&xs);
+        let heights: Vec<u64> = xs.iter().map(|x| x.height()).collect();
+        let d = digest_bytes(&[hash_bytes(&trusted.hash()).to_vec(), xs.iter().flat_map(|x| hash_bytes(&x.hash()).to_vec()).collect::<Vec<u8>>(), vec![ri as u8]].concat());
+        obs.eval(Some(d));
+        obs.eval(Some(d ^ 1));
+        obs.label(label);
+        obs.label(if want { "range-accept" } else { "range-reject" });
+        // pairwise verifiable but heights not consecutive: only the consecutive-height clause rejects
+        let pairwise = {
+            let mut prev = trusted;
+            let mut ok = true;
+            for x in &xs {
+                ok &= ref_conds(prev, x, far).ok();
+                prev = x;
+            }
+            ok
+        };
+        if pairwise && !want {
+            obs.label("range-reject-only-non-consecutive");
+        }
+        if want && !want_adj {
+            obs.label("range-first-not-adjacent");
+        }
+        if got.is_ok() != want {
+            let sig = if got.is_ok() { "C02:verify-range-accepted-bad-range" } else { "C02:verify-range-rejected-good-range" };
+            clock.set(None);
+            obs.fail(
+                sig,
+                format!(
+                    "trusted height {} ({label}), range heights {heights:?}: verify_range -> {:?}, reference accept={want} (pairwise verifiable={pairwise})",
+                    trusted.height(),
+                    got.as_ref().map_err(|e| e.to_string())
+                ),
+            )?;
+            clock.set(Some(far));
+        }
+        if got_adj.is_ok() != want_adj {
+            let sig = if got_adj.is_ok() { "C02:verify-adjacent-range-accepted-bad-range" } else { "C02:verify-adjacent-range-rejected-good-range" };
+            clock.set(None);
+            obs.fail(
+                sig,
+                format!(
+                    "trusted height {} ({label}), range heights {heights:?}: verify_adjacent_range -> {:?}, reference accept={want_adj}",
+                    trusted.height(),
+                    got_adj.as_ref().map_err(|e| e.to_string())
+                ),
+            )?;
+            clock.set(Some(far));
+        }
+    }
+    clock.set(None);
+    Ok(())
+}
+
+pub fn run(ctx: &mut Ctx) {
+    ctx.assume("every header handed to verify* is a validated header (honest, fork or honestly re-sealed perturbation), as the API documentation requires of callers; the hash of a header is tendermint's Header::hash");
+    ctx.assume("the local clock is pinned through the additive cfg(eigerco_lumina_verif) hook verif_clock (a thread-local Option<Time> read right after Time::now() in verify); real-clock evaluations use chains >= 3 years in the past or ~80 years in the future");
+    ctx.assume("reference trusting tally: ed25519-consensus over lv_gen's hand-encoded canonical vote, u128 arithmetic; VerifiedExtendedHeaders::try_from (lumina-node) is not covered here");
+    ctx.essential(&[
+        "accept-adjacent",
+        "accept-non-adjacent",
+        "rotated-adjacent-pair",
+        "non-adjacent-rotated",
+        "fork-pair",
+        "reject-only-height",
+        "reject-only-chain-id",
+        "reject-only-time-not-later",
+        "reject-only-clock",
+        "reject-only-parent",
+        "reject-only-next-validators",
+        "reject-only-trust",
+        "trust-exact-third",
+        "trust-boundary-reject",
+        "trust-boundary-accept",
+        "trust-zero",
+        "trust-full",
+        "clock-exact-boundary",
+        "clock-1ns-inside",
+        "real-clock-accept",
+        "real-clock-reject",
+        "range-honest-slice",
+        "range-removed-one",
+        "range-duplicated-one",
+        "range-swapped-two",
+        "range-reversed",
+        "range-perturbed-element",
+        "range-empty",
+        "range-accept",
+        "range-reject-only-non-consecutive",
+        "range-first-not-adjacent",
+    ]);
+    let max_len = ctx.tier.pick(12, 12);
+    let cases = ctx.tier.pick(320, 4000);
+    ctx.proptest(
+        "pairs-and-ranges",
+        "per generated chain of 3..12 headers (first set engineered so that a kept group carries exactly T/3, T/3±1 of its power; rotations keeping that group / a masked subset / nothing; Commit/Nil/Absent mixes) plus same-key and foreign-key forks and honestly re-sealed perturbations (other chain id, time set relative to any header ±0/1ns/1s/±1h, other parent hash) and attacker headers that validate but whose post-quorum commit entries name trusted validators with invalid signatures: verify and verify_adjacent on EVERY ordered pair of the pool (incl. j<=i) against the reference, with the clock pinned far ahead; for every otherwise-linked pair additionally the clock pinned at header time -10s (exact boundary), ±1ns around it, -1h, -9s, 0, and up to 12 evaluations on the real clock; verify_range / verify_adjacent_range on honest slices, with one element removed, duplicated, two swapped, reversed, one replaced by / one inserted fork or perturbed header, and the empty range. Non-trivial = pair involving a fork/perturbed header, non-adjacent pair across a rotation, any pinned-boundary evaluation, any range; distinct by the block hashes involved (and clock offset)",
+        cases,
+        move || case_strategy(max_len),
+        run_case,
+    );
 }
